@@ -4,6 +4,8 @@ import (
 	"fmt"
 	"go/types"
 
+	"golang.org/x/tools/go/ssa"
+
 	"verif/internal/absint"
 	"verif/internal/load"
 	"verif/internal/models"
@@ -161,12 +163,65 @@ func c12Compact(c *Ctx, prog *load.Program) {
 
 func asn1Set() *models.Set { return protoSet(nil).Merge(models.ASN1()) }
 
-// b2sModel replaces bytesToCanonicalScalar by its specification (validated per length by c12BytesToScalar).
-func b2sModel(set *models.Set) {
-	set.Intercepts[models.SececPkg+".bytesToCanonicalScalar"] = func(ex *absint.Exec, cc *absint.CallCtx) (absint.Val, bool) {
+// b2sHelper locates the routine that converts the contents of a DER INTEGER to a scalar: the function of package secec
+// that ParseASN1Signature calls with a byte slice and that returns a scalar first (bytesToCanonicalScalar on the reference
+// tree; a renamed or re-shaped helper is found the same way).
+func b2sHelper(prog *load.Program) *ssa.Function {
+	if fn := absint.FindFunc(prog.SSA, models.SececPkg+".bytesToCanonicalScalar"); fn != nil {
+		return fn
+	}
+	parser := absint.FindFunc(prog.SSA, models.SececPkg+".ParseASN1Signature")
+	if parser == nil {
+		return nil
+	}
+	var found *ssa.Function
+	for _, b := range parser.Blocks {
+		for _, in := range b.Instrs {
+			call, ok := in.(ssa.CallInstruction)
+			if !ok {
+				continue
+			}
+			g := call.Common().StaticCallee()
+			if g == nil || g.Pkg == nil || g.Pkg.Pkg.Path() != models.SececPkg || len(g.Params) != 1 || !isByteSlice(g.Params[0].Type()) {
+				continue
+			}
+			res := g.Signature.Results()
+			if res.Len() == 0 || namedOf(res.At(0).Type()) != models.ScalarType {
+				continue
+			}
+			if found != nil && found != g {
+				return nil
+			}
+			found = g
+		}
+	}
+	return found
+}
+
+type b2sInfo struct {
+	fn          *ssa.Function
+	rejectsZero bool // the helper itself rejects the value 0 (the zero test folded into it)
+	good        bool
+	detail      string
+}
+
+var b2sMemo = map[*load.Program]*b2sInfo{}
+
+// b2sModel replaces the INTEGER-to-scalar helper by its specification (validated per length by c12BytesToScalar).
+func b2sModel(set *models.Set, prog *load.Program) {
+	info := b2sAnalyse(prog)
+	if info.fn == nil {
+		return
+	}
+	rejectsZero := info.rejectsZero
+	set.Intercepts[info.fn.String()] = func(ex *absint.Exec, cc *absint.CallCtx) (absint.Val, bool) {
 		b := ex.SliceBytes(cc.St, cc.Args[0])
 		ok := sym.App(sym.Bool, "b2s_ok", b)
-		sc := ex.AllocAbs(models.ScalarType, models.Mod, "Scalar", sym.App(sym.Fn, "b2s", b))
+		val := sym.App(sym.Fn, "b2s", b)
+		if rejectsZero {
+			ok = sym.Ite(ok, sym.Not(models.RingEq(val, fnZero)), sym.ConstBool(false))
+		}
+		sc := ex.AllocAbs(models.ScalarType, models.Mod, "Scalar", val)
 		obj := absint.MergeVal(ok, sc, absint.Nil{})
 		// the success indicator follows the routine's signature: error, bool, or the nil-able object alone
 		if cc.Fn != nil {
@@ -218,7 +273,7 @@ func (d *derReader) empty() *sym.Term { return sym.App(sym.Bool, "is_empty", d.c
 
 func c12ASN1Signature(c *Ctx, prog *load.Program) {
 	set := asn1Set()
-	b2sModel(set)
+	b2sModel(set, prog)
 	name := models.SececPkg + ".ParseASN1Signature"
 	r := RunFn(prog, set, name, &RunOpts{Args: named("d")})
 	if r.Fn == nil {
@@ -273,17 +328,35 @@ func c12ASN1Signature(c *Ctx, prog *load.Program) {
 	c.R.Floor("C12-1", 2)
 }
 
-// c12BytesToScalar validates the specification of bytesToCanonicalScalar for every length.
+// c12BytesToScalar validates the specification of the INTEGER-to-scalar helper for every length.
 func c12BytesToScalar(c *Ctx, prog *load.Program) {
-	name := models.SececPkg + ".bytesToCanonicalScalar"
-	fn := absint.FindFunc(prog.SSA, name)
-	if fn == nil {
+	info := b2sAnalyse(prog)
+	if info.fn == nil {
 		c.R.Unknown("C12-1", "bytesToCanonicalScalar", "", "function not found")
 		return
 	}
-	pos := PosOf(prog, fn)
+	okText := "for every length: 1..32 bytes are zero-extended on the left and decoded canonically (rejected iff >= n); 0 and > 32 bytes are rejected"
+	if info.rejectsZero {
+		okText += "; the value 0 is rejected by the helper itself"
+	}
+	c.R.Decide(info.good, "C12-1", "bytesToCanonicalScalar", PosOf(prog, info.fn), okText, info.detail)
+}
+
+func b2sAnalyse(prog *load.Program) *b2sInfo {
+	if info, ok := b2sMemo[prog]; ok {
+		return info
+	}
+	info := &b2sInfo{fn: b2sHelper(prog), good: true}
+	b2sMemo[prog] = info
+	fn := info.fn
+	if fn == nil {
+		info.good = false
+		return info
+	}
+	name := fn.String()
 	good := true
 	detail := ""
+	mode := 0 // 1: accepts every canonical value, 2: accepts the canonical non-zero values
 	for L := 0; L <= 33; L++ {
 		b := absint.SymBytes("b", L, 0)
 		r := RunFn(prog, protoSet(nil), name, &RunOpts{Args: named("b"), Pre: func(ex *absint.Exec, st *absint.State, args []absint.Val) {
@@ -313,11 +386,23 @@ func c12BytesToScalar(c *Ctx, prog *load.Program) {
 		}
 		padded := absint.CatBytes(sym.ConstStr(sym.Bytes, string(make([]byte, 32-L))), b)
 		want := models.OfBytes(sym.Fn, padded)
-		ok, d := Equivalent(acc, fNot(FTerm(models.GeModulus(sym.Fn, padded))))
+		canonical := fNot(FTerm(models.GeModulus(sym.Fn, padded)))
+		ok, d := Equivalent(acc, canonical)
+		m := 1
+		if !ok {
+			if ok2, _ := Equivalent(acc, fAnd(canonical, fNot(FTerm(models.RingEq(want, fnZero))))); ok2 {
+				ok, m = true, 2
+			}
+		}
 		if !ok {
 			good, detail = false, fmt.Sprintf("length %d: accept set differs: %s", L, d)
 			break
 		}
+		if mode != 0 && mode != m {
+			good, detail = false, fmt.Sprintf("length %d: the value 0 is treated differently from shorter strings", L)
+			break
+		}
+		mode = m
 		for _, e := range r.Ex.Returns {
 			if p, isP := exitResult(e, 0).(*absint.Ptr); isP {
 				if t := loadPtrTerm(r.Ex, e.St, p); t == nil || !sym.Equal(t, want) {
@@ -329,7 +414,8 @@ func c12BytesToScalar(c *Ctx, prog *load.Program) {
 			good, detail = false, fmt.Sprintf("length %d: %s %s (%d)", L, fpos, fmsg, n)
 		}
 	}
-	c.R.Decide(good, "C12-1", "bytesToCanonicalScalar", pos, "for every length: 1..32 bytes are zero-extended on the left and decoded canonically (rejected iff >= n); 0 and > 32 bytes are rejected", detail)
+	info.good, info.detail, info.rejectsZero = good, detail, mode == 2
+	return info
 }
 
 func c12ASN1PublicKey(c *Ctx, prog *load.Program) {
@@ -430,15 +516,25 @@ func c12Builders(c *Ctx, prog *load.Program) {
 	}
 	// SubjectPublicKeyInfo
 	{
-		r := RunFn(prog, set, models.SececPkg+".buildASN1PublicKey", &RunOpts{Args: named("k"), Pre: func(ex *absint.Exec, st *absint.State, args []absint.Val) {
+		// through the exported method, so that the shape of the unexported builder behind it is free
+		r := RunFn(prog, set, "(*"+models.SececPkg+".PublicKey).ASN1Bytes", &RunOpts{Args: named("k"), Pre: func(ex *absint.Exec, st *absint.State, args []absint.Val) {
 			enc := absint.SymBytes("*k.pointBytes", 65, 0)
-			kp := args[0].(*absint.Ptr)
+			kp, isP := args[0].(*absint.Ptr)
+			if !isP {
+				ex.Failf("receiver of ASN1Bytes is not a pointer")
+				return
+			}
 			ib := FieldIndex(prog, models.SececPkg, "PublicKey", "pointBytes")
 			storeBytesField(ex, st, kp, prog, models.SececPkg, "PublicKey", ib, enc, "pointBytes")
 		}})
-		key := "build/buildASN1PublicKey"
+		key := "build/PublicKey.ASN1Bytes"
+		if r.Fn == nil {
+			c.R.Unknown("C12-4", key, "", "function not found")
+			c.R.Floor("C12-4", 4)
+			return
+		}
 		pos := PosOf(prog, r.Fn)
-		if p := runComplete(r); p != "" || r.Out.Ret == nil || r.Fn == nil {
+		if p := runComplete(r); p != "" || r.Out.Ret == nil {
 			c.R.Unknown("C12-4", key, pos, p+" (or no return)")
 		} else {
 			got := sym.Canon(r.Ex.SliceBytes(r.Final(), r.Result(0)))
